@@ -46,7 +46,7 @@ def run_case(rep, rng, ci, dev, cfg, texts, recs_all):
         case = {"run": ci, **{k: str(v) for k, v in cfg.items()}, "step": state["step"]}
         if tp is not None:
             dev_ = float(np.max(np.abs(psi[tsites] - tp)))
-            if (tp == 0 and dev_ != 0.0) or dev_ > 1e-12:
+            if dev_ != 0.0:        # the configured value is imposed, not approached: exact
                 rep.violation(f"order parameter on terminal sites is not the configured terminal value (max deviation {dev_:.3e})",
                               {**case, "terminal_psi": str(tp)}, finding_key=None)
         else:
@@ -95,6 +95,10 @@ def run(rep: common.Report, tier: str, seed: int, replay=None) -> int:
         dict(terminal_psi=1.0, field=0.2, current=1.0, screening=False, solve_time=1.5, model=True),
         dict(terminal_psi=0.5 + 0.5j, field=0.0, current=0.5, screening=False, solve_time=1.0, model=False),
         dict(terminal_psi=0.3, field=0.3, current=0.0, screening=False, solve_time=1.0, model=False),
+        # valid values of any size: tiny and large-modulus-one-ish complex
+        dict(terminal_psi=1e-9, field=0.2, current=0.5, screening=False, solve_time=0.8, model=False),
+        dict(terminal_psi=2e-10j, field=0.0, current=0.5, screening=False, solve_time=0.8, model=False),
+        dict(terminal_psi=-0.6 + 0.8j, field=0.1, current=0.5, screening=False, solve_time=0.5, model=False),
         dict(terminal_psi=0.0, field=0.3, current=1.0, screening=True, solve_time=0.15, model=False),
         dict(terminal_psi=1.0, field=0.1, current=1.0, screening=True, solve_time=0.15, model=False),
     ]
